@@ -32,7 +32,7 @@ MICROS = [0, 1000, 5000, 50000, 120000, 999000]
 
 
 def plan(tier, seed):
-    return C.plan_counts(tier, 16 * 30000, 16 * 600000)
+    return C.plan_counts(tier, 16 * 90000, 16 * 600000)
 
 
 # ------------------------------------------------------------------ independent X.680 reader
